@@ -220,6 +220,16 @@ Theorem C01_round_ops_keep_sign : forall x,
 Proof. exact round_ops_sign. Qed.
 Print Assumptions C01_round_ops_keep_sign.
 
+(* floor / ceil / round return integers: proved for every double through SpecFloat's
+   binary_normalize (an integer given with exponent 0 is normalised without losing its low bits) *)
+Theorem C01_round_ops_return_integers : forall x,
+  is_finite x = true ->
+  (is_finite (ffloor x) = true -> is_int (ffloor x) = true) /\
+  (is_finite (fceil x) = true -> is_int (fceil x) = true) /\
+  (is_finite (fround x) = true -> is_int (fround x) = true).
+Proof. exact round_ops_int. Qed.
+Print Assumptions C01_round_ops_return_integers.
+
 (* finite sweeps (every negative binary exponent x boundary mantissas x both signs, 15 046
    inputs): floor/ceil/round return integers bracketing x; |x % y| < |y| *)
 Theorem C01_round_ops_integers_sweep : forallb round_ok sweep_inputs = true.
